@@ -77,6 +77,17 @@ func (p *prover) elemLowerBound(sl ssa.Value) (int64, bool) {
 	}
 	ms, ok := rv.(*ssa.MakeSlice)
 	if !ok {
+		// a slice made and filled by a helper that returns it
+		if call, isCall := rv.(*ssa.Call); isCall {
+			if hms, h := returnedMake(call); hms != nil {
+				st, okT := hms.Type().Underlying().(*types.Slice)
+				if !okT || !isIntType(st.Elem()) {
+					return 0, false
+				}
+				ph := p.ix.proverFor(h)
+				return 0, ph.elemStoresNonNeg(hms, st.Elem(), 1) && p.elemStoresNonNeg(call, st.Elem(), 0)
+			}
+		}
 		return 0, false
 	}
 	st, ok := ms.Type().Underlying().(*types.Slice)
@@ -84,6 +95,34 @@ func (p *prover) elemLowerBound(sl ssa.Value) (int64, bool) {
 		return 0, false
 	}
 	return 0, p.elemStoresNonNeg(ms, st.Elem(), 0)
+}
+
+// returnedMake: call is a static call of a module function every return of which yields the same slice made in
+// it (result 0); returns that MakeSlice and the function.
+func returnedMake(call *ssa.Call) (*ssa.MakeSlice, *ssa.Function) {
+	h := call.Call.StaticCallee()
+	if h == nil || h.Blocks == nil || !inModule(h) {
+		return nil, nil
+	}
+	var ms *ssa.MakeSlice
+	rets := returnsOf(h)
+	if len(rets) == 0 {
+		return nil, nil
+	}
+	for _, ret := range rets {
+		rv := results(ret)
+		if len(rv) == 0 {
+			return nil, nil
+		}
+		for _, v := range phiClosure(rv[0]) {
+			m, ok := v.(*ssa.MakeSlice)
+			if !ok || (ms != nil && m != ms) {
+				return nil, nil
+			}
+			ms = m
+		}
+	}
+	return ms, h
 }
 
 // elemStoresNonNeg: every store into an element of the slice `root` (a slice made here, or -- when reached from
